@@ -42,7 +42,7 @@ func SumFunc(query *Query, current Map, functionOptions *FunctionOptions, args [
 	if err != nil {
 		return nil, err
 	}
-	slice, err := AsType[[]any](args[0])
+	slice, err := asNonNull[[]any](args[0])
 	if err != nil {
 		return nil, err
 	}
@@ -77,7 +77,7 @@ func AvgFunc(query *Query, current Map, functionOptions *FunctionOptions, args [
 	if err != nil {
 		return nil, err
 	}
-	slice, err := AsType[[]any](args[0])
+	slice, err := asNonNull[[]any](args[0])
 	if err != nil {
 		return nil, err
 	}
@@ -113,7 +113,7 @@ func MinFunc(query *Query, current Map, functionOptions *FunctionOptions, args [
 	if err != nil {
 		return nil, err
 	}
-	slice, err := AsType[[]any](args[0])
+	slice, err := asNonNull[[]any](args[0])
 	if err != nil {
 		return nil, err
 	}
@@ -150,7 +150,7 @@ func MaxFunc(query *Query, current Map, functionOptions *FunctionOptions, args [
 	if err != nil {
 		return nil, err
 	}
-	slice, err := AsType[[]any](args[0])
+	slice, err := asNonNull[[]any](args[0])
 	if err != nil {
 		return nil, err
 	}
@@ -194,7 +194,7 @@ func CountFunc(query *Query, current Map, functionOptions *FunctionOptions, args
 		}
 		return len(slice), nil
 	}
-	slice, err := AsType[[]any](args[0])
+	slice, err := asNonNull[[]any](args[0])
 	if err != nil {
 		return nil, err
 	}
@@ -287,7 +287,7 @@ func ElementAtFunc(query *Query, current Map, functionOptions *FunctionOptions, 
 	if err != nil {
 		return nil, err
 	}
-	indexRaw, err := AsType[float64](args[1])
+	indexRaw, err := asNonNull[float64](args[1])
 	if err != nil {
 		return nil, err
 	}
@@ -347,7 +347,7 @@ func ChangeTypeFunc(query *Query, current Map, functionOptions *FunctionOptions,
 	if value == nil {
 		return nil, nil
 	}
-	conversionType, err := AsType[string](args[1])
+	conversionType, err := asNonNull[string](args[1])
 	if err != nil {
 		return nil, err
 	}
@@ -419,7 +419,7 @@ func IfFunc(query *Query, current Map, functionOptions *FunctionOptions, args []
 	if err != nil {
 		return nil, err
 	}
-	condition, err := AsType[bool](args[0])
+	condition, err := asNonNull[bool](args[0])
 	if err != nil {
 		return nil, err
 	}
@@ -579,7 +579,7 @@ func RaiseWhenFunc(query *Query, current Map, functionOptions *FunctionOptions, 
 	if err != nil {
 		return nil, err
 	}
-	cond, err := AsType[bool](args[0])
+	cond, err := asNonNull[bool](args[0])
 	if err != nil {
 		return nil, err
 	}
@@ -617,7 +617,7 @@ func ReportWhenFunc(query *Query, current Map, functionOptions *FunctionOptions,
 	if err != nil {
 		return nil, err
 	}
-	cond, err := AsType[bool](args[0])
+	cond, err := asNonNull[bool](args[0])
 	if err != nil {
 		return nil, err
 	}
@@ -659,7 +659,7 @@ func ToLowerFunc(query *Query, current Map, functionOptions *FunctionOptions, ar
 	if err != nil {
 		return nil, err
 	}
-	str, err := AsType[string](args[0])
+	str, err := asNonNull[string](args[0])
 	if err != nil {
 		return nil, err
 	}
@@ -678,7 +678,7 @@ func ToUpperFunc(query *Query, current Map, functionOptions *FunctionOptions, ar
 	if err != nil {
 		return nil, err
 	}
-	str, err := AsType[string](args[0])
+	str, err := asNonNull[string](args[0])
 	if err != nil {
 		return nil, err
 	}
@@ -704,7 +704,7 @@ func HashFunc(query *Query, current Map, functionOptions *FunctionOptions, args 
 	if err != nil {
 		return nil, err
 	}
-	hashFunction, err := AsType[string](args[1])
+	hashFunction, err := asNonNull[string](args[1])
 	if err != nil {
 		return nil, err
 	}
@@ -771,7 +771,7 @@ func EncodeFunc(query *Query, current Map, functionOptions *FunctionOptions, arg
 	if err != nil {
 		return nil, err
 	}
-	base, err := AsType[string](args[1])
+	base, err := asNonNull[string](args[1])
 	if err != nil {
 		return nil, err
 	}
@@ -809,11 +809,11 @@ func DecodeFunc(query *Query, current Map, functionOptions *FunctionOptions, arg
 		return nil, err
 	}
 	var buffer bytes.Buffer
-	data, err := AsType[string](args[0])
+	data, err := asNonNull[string](args[0])
 	if err != nil {
 		return nil, err
 	}
-	base, err := AsType[string](args[1])
+	base, err := asNonNull[string](args[1])
 	if err != nil {
 		return nil, err
 	}
@@ -874,6 +874,16 @@ func TimestampFunc(query *Query, current Map, functionOptions *FunctionOptions, 
 		return nil, err
 	}
 	return time.Now().UnixNano(), nil
+}
+
+// asNonNull is AsType for arguments that are dereferenced unconditionally:
+// AsType returns a nil pointer and no error for a NULL value, so NULL is
+// rejected here with an error instead of a nil pointer dereference later on
+func asNonNull[T any](value any) (*T, error) {
+	if value == nil {
+		return nil, INVALID_CAST.Extend("NULL is not a valid argument")
+	}
+	return AsType[T](value)
 }
 
 func Guard(n int, args []any) error {
